@@ -27,10 +27,14 @@ THEOREMS = [
     "JanetModel.Props.C18.thread_keeps_parent_flags",
     "JanetModel.Props.C18.sandboxOp_guarded",
     "JanetModel.Props.C18.interp_sound",
+    "JanetModel.Props.C18.interp_sound_addr",
     "JanetModel.Props.C18.checker_sound",
     "JanetModel.Props.C18.checker_sound_entry",
     "JanetModel.Props.C18.gen_certOK",
     "JanetModel.Props.C18.gen_classified",
+    "JanetModel.Props.C18.gen_entriesCover",
+    "JanetModel.Props.C18.gen_entries",
+    "JanetModel.Props.C18.sandbox_enforced_addr",
     "JanetModel.Props.C18.gen_tables",
     "JanetModel.Props.C18.sandbox_enforced",
 ]
